@@ -24,6 +24,12 @@ var c16PathCallees = []struct{ def, extraBefore, extraAfter, want string }{
 	{"(func cal [x:int64] [r:int64] (+ x 0))", "", "", "V"},
 	{"(defn cal [x] (fn [] x))", "", "", "FN"},
 	{"(defn cal [#l x] (+ x (force #l)))", "0 ", "", "V"},
+	// the path in a LAZY position: forced later, it still denotes the caller's value
+	{"(defn cal [#x] (+ 0 (force #x)))", "", "", "V"},
+	{"(defn cal [#x] (let [pk (hash Pub: 98)] (+ 0 (force #x))))", "", "", "V"},
+	{"(defn cal [#x pk] (+ (force #x) 0))", "", " (hash Pub: 99)", "V"},
+	{"(defn cal [#x] (list (force #x) (force #x)))", "", "", "(V V)"},
+	{"(defn cal [#x] (fn [] (force #x)))", "", "", "FN"},
 }
 
 var c16PathRoutes = []struct{ pre, call string }{
